@@ -1362,7 +1362,12 @@ func (e *Engine) exec(st *State, fr *Frame, in ssa.Instruction) bool {
 				h(e, st, fr, nil, d.args)
 				return false // re-run RunDefers
 			}
-			nf := e.pushFrame(st, d.fn.fn, d.args, d.fn.bind, nil)
+			target := d.fn.fn
+			if rf, ok := e.redirect[name]; ok {
+				e.models[name+" (Go-source model)"]++
+				target = rf
+			}
+			nf := e.pushFrame(st, target, d.args, d.fn.bind, nil)
 			nf.resume = true
 			return false
 		}
